@@ -9,6 +9,7 @@ import (
 	"fmt"
 	realos "os"
 	"runtime/debug"
+	"strconv"
 	"strings"
 
 	"github.com/go-gts/gts/internal/verifsim/simos"
@@ -48,7 +49,34 @@ type procResult struct {
 // its arguments from the real os.Args, which is set here, and prints error
 // text to the real stderr, which main() of the driver points at /dev/null;
 // stderr text is not part of any oracle.
+// rawArgv turns the escape \xHH (four characters) inside scenario tokens into
+// the byte it names: command-line arguments are byte strings, not text, and a
+// scenario file (JSON) cannot hold bytes that are not UTF-8.
+func rawArgv(argv []string) []string {
+	out := make([]string, len(argv))
+	for i, a := range argv {
+		if !strings.Contains(a, "\\x") {
+			out[i] = a
+			continue
+		}
+		var b []byte
+		for k := 0; k < len(a); k++ {
+			if a[k] == '\\' && k+3 < len(a) && a[k+1] == 'x' {
+				if v, err := strconv.ParseUint(a[k+2:k+4], 16, 8); err == nil {
+					b = append(b, byte(v))
+					k += 3
+					continue
+				}
+			}
+			b = append(b, a[k])
+		}
+		out[i] = string(b)
+	}
+	return out
+}
+
 func runGts(w *simos.World, argv []string, spec simos.ProcSpec) (res procResult) {
+	argv = rawArgv(argv)
 	simos.W = w
 	resetProcessGlobals()
 	resetMainGlobals()
